@@ -205,8 +205,10 @@ Definition table_ok (rargs : list pentry) (wt : wtable) : bool :=
 Definition reader_of (g : h5gen) (kind : string) : list pentry :=
   match find (fun r => String.eqb (rt_kind r) kind) (g_reader g) with Some r => rt_args r | None => [] end.
 
+Definition table_kinds : list string := ["population"; "projection"; "electrical"; "continuous"; "inputlist"].
+
 Definition layout_ok (g : h5gen) (wt : wtable) : bool :=
-  table_ok (reader_of g (wt_kind wt)) wt
+  table_ok (reader_of g (wt_kind wt)) wt && mem (wt_kind wt) table_kinds
   && match find (fun r => String.eqb (rt_kind r) (wt_kind wt)) (g_reader g) with
      | Some r => match rt_unread r with [] => true | _ => false end | None => false end.
 
@@ -279,9 +281,22 @@ Definition units_ok (g : h5gen) : bool :=
   forallb (fun p => snd p) (g_delay_units g) && mem "3ms" (map fst (g_delay_units g)) && mem "0.25s" (map fst (g_delay_units g)).
 
 (* writer tables present for every combination of row variants *)
+Definition all_layouts_ok (g : h5gen) : bool := forallb (layout_ok g) (g_writer g).
+
 Definition kinds_covered (g : h5gen) : bool :=
   forallb (fun kn => Nat.eqb (length (filter (fun wt => String.eqb (wt_kind wt) (fst kn)) (g_writer g))) (snd kn))
           [("population", 1); ("projection", 6); ("electrical", 7); ("continuous", 7); ("inputlist", 3)].
+
+(* a table stores every field its row variants carry, except segment / fraction when the flag says all are at their default;
+   and its row variants are the ones its flags name *)
+Definition seg_fields : list string := ["pre_seg"; "post_seg"; "pre_fract"; "post_fract"].
+Definition stores_ok (wt : wtable) : bool :=
+  strs_eqb (map wv_name (wt_variants wt)) (filter (fun f => negb (String.eqb f "segfract")) (wt_flags wt))
+  && forallb (fun v => forallb (fun f => field_stored (wv_cols v) f
+                                        || (String.eqb (wt_kind wt) "projection" && mem f seg_fields && negb (mem "segfract" (wt_flags wt))))
+                               (vfields (wt_kind wt) (wv_name v)))
+             (wt_variants wt).
+Definition all_stores_ok (g : h5gen) : bool := forallb stores_ok (g_writer g).
 
 (* ------------------------------------------------------------------ executable codec over a layout *)
 Section Codec.
@@ -426,6 +441,19 @@ Section Codec.
     end.
 
   Definition write_rows (wt : wtable) (rows : list trow) : option (list (list F)) := encode_table (wt_variants wt) rows.
+
+  (* ---------------- how the writer chooses the table: which row variants are present, and (chemical projections)
+     whether any connection has a segment or fraction off its default (utils.has_segment_fraction_info) *)
+  Definition present (vs : list string) (rows : list trow) : list string :=
+    filter (fun v => existsb (fun r => String.eqb (fst r) v) rows) vs.
+  Definition seg_default (fields : sem_row) : bool :=
+    weq (fields "pre_seg") (cval CZero) && weq (fields "post_seg") (cval CZero)
+    && weq (fields "pre_fract") (cval CHalf) && weq (fields "post_fract") (cval CHalf).
+  Definition segfract (rows : list trow) : bool := existsb (fun r => negb (seg_default (snd r))) rows.
+  Definition flags_of (kind : string) (rows : list trow) : list string :=
+    (present (variants_of kind) rows ++ (if String.eqb kind "projection" && segfract rows then ["segfract"] else []))%list.
+  Definition select_table (g : h5gen) (kind : string) (rows : list trow) : option wtable :=
+    find (fun wt => String.eqb (wt_kind wt) kind && strs_eqb (wt_flags wt) (flags_of kind rows)) (g_writer g).
 
   (* ---------------- group attributes: an association list of optional strings (PyTables: what was set is what is read) *)
   Definition write_attrs (w : list (string * gsrc)) (fields : string -> option string) : list (string * option string) :=
